@@ -7,7 +7,11 @@ vars == <<kind, par>>
 F1 == DefaultFmt
 F2 == [DefaultFmt EXCEPT !.rate = 11025]
 \* base names: "t1" "T2" "trk_0008" (8 chars) "ninechars" (9) "t1" in upper case "T1"
-Names == << <<116,49>>, <<84,50>>, <<116,114,107,95,48,48,48,56>>, <<110,105,110,101,99,104,97,114,115>>, <<84,49>> >>
+\* ... and names with dots (the stored name is the file name without its LAST extension; a leading dot starts no extension):
+\*     "abcde.gh" (8: fits) "abcde.ghi" (9) ".bcdefghi" (9) "abcdefgh." (9, the file is "abcdefgh..wav")
+Names == << <<116,49>>, <<84,50>>, <<116,114,107,95,48,48,48,56>>, <<110,105,110,101,99,104,97,114,115>>, <<84,49>>,
+            <<97,98,99,100,101,46,103,104>>, <<97,98,99,100,101,46,103,104,105>>, <<46,98,99,100,101,102,103,104,105>>, <<97,98,99,100,101,102,103,104,46>> >>
+NPlain == 5          \* the dotted names are used in sets of one member (see the note at ClmAlphabet)
 Ext == <<46,119,97,118>>
 DataLens == {0, 1, 6, 7}
 \* chunk layouts: <<pre, mid, post>>
@@ -37,6 +41,8 @@ WavSet(nis, dls, li, variant) ==
   [i \in 1..n |-> Wav(nis[i], dls[i], ((li + i) % Len(Layouts)) + 1, IF (i + li) % 2 = 0 THEN 16 ELSE 18,
                        IF variant = 2 /\ i = n /\ n > 1 THEN F2 ELSE F1, i)]
 \* random sets: names of 1..9 characters over letters of both cases, digits and '_', data lengths 0..40, 0..2 extra chunks in each position
+\* (the property quantifies over letters, digits and underscores; the code orders members by the file name INCLUDING ".wav", which is the order
+\*  of the stored names only as long as no character below '.' and no inner dot occurs - so dots stay out of the multi-member families)
 ClmAlphabet == << 97, 98, 122, 65, 66, 90, 48, 57, 95, 101, 69 >>
 RName(r, i) == Draw(Seed * 211 + r, 10 + i, 1 + Below(Seed * 211 + r, 3, i, 9), ClmAlphabet)
 RExtras(r, i, k) == [j \in 1..Below(Seed * 211 + r, 20 + k, i, 3) |-> 2 * Below(Seed * 211 + r, 30 + k, i * 4 + j, 5)]
@@ -47,7 +53,7 @@ RandSet(r) == [i \in 1..Below(Seed * 211 + r, 1, 0, 6) |-> RWav(r, i)]
 Init == \/ /\ kind = "rand" /\ par \in {<<r>> : r \in 1..NRand}
         \/ /\ kind = "set"
            /\ \E n \in 0..MaxFiles : \E nis \in Seqs(1..Len(Names), n) : \E dls \in Seqs(DataLens, n) : \E li \in 1..Len(Layouts) : \E variant \in {1, 2} :
-                Distinct(nis) /\ par = <<nis, dls, li, variant>>
+                Distinct(nis) /\ (n > 1 => \A i \in 1..n : nis[i] <= NPlain) /\ par = <<nis, dls, li, variant>>
 Next == UNCHANGED vars
 Spec == Init /\ [][Next]_vars
 Set == IF kind = "rand" THEN RandSet(par[1]) ELSE WavSet(par[1], par[2], par[3], par[4])
